@@ -38,28 +38,19 @@ Definition resp_res (p : cresp) : ores :=
 
 (* ---------- the writer's section ---------- *)
 
-(* what one attempt observes of the WAL object it loaded with getWAL():
-   WActive    both status checks (top of Append; syncLocked behind the buffered record when the
-              sync mode syncs on append) see Active: the attempt completes;
-   WRotating  the check at the top of Append sees Rotating: ErrWALRotating, nothing written;
-   WClosed    it sees Closed: ErrWALClosed, which RetryOnWALRotating does not retry;
-   WFlip      the top check sees Active, the record is written to the log buffer and the
-              sequence number consumed, then rotateWAL's SetRotating (an atomic store that does
-              not take the WAL mutex) lands before syncLocked re-reads the status:
-              Append returns ErrWALRotating although the record is in the log. *)
-Inductive wstat := WActive | WRotating | WClosed | WFlip.
+(* what one attempt observes of the WAL object it loaded with getWAL(). WAL.Append reads the
+   status flag once, under the WAL mutex, before it writes anything (the sync behind the
+   buffered record no longer looks at it):
+   WActive    Active: the record is appended, the attempt completes;
+   WRotating  Rotating: ErrWALRotating, nothing written, RetryOnWALRotating tries again;
+   WClosed    Closed (an old WAL object loaded before the pointer swap, used after rotateWAL
+              closed it): ErrWALClosed, nothing written, not retried. *)
+Inductive wstat := WActive | WRotating | WClosed.
 
 Inductive wreq := WPutReq (k v : bytes) | WDelReq (k : bytes).
 
 Definition do_write (s : st) (w : wreq) : st * wr_res :=
   match w with WPutReq k v => put s k v | WDelReq k => del s k end.
-
-Definition wreq_entry (w : wreq) (q : N) : wentry :=
-  match w with WPutReq k v => mkW OpPut q k v | WDelReq k => mkW OpDel q k [] end.
-
-(* the record reaches the log, the sequence number is spent, nothing else happens *)
-Definition log_orphan (s : st) (w : wreq) : st :=
-  upd_wal s (wal_next s + 1) (log_append (wal_files s) [wreq_entry w (wal_next s)]).
 
 Inductive attempt_res := AOk (s : st) | ARetry (s : st) | AFail (s : st).
 
@@ -71,7 +62,6 @@ Definition attempt (w : wreq) (o : wstat) (s : st) : attempt_res :=
                | (s', WrOk _) => AOk s'
                | (s', WrOverflow) => AFail s'
                end
-  | WFlip => if MaxSeq <=? wal_next s then AFail s else ARetry (log_orphan s w)
   end.
 
 (* Manager.RetryOnWALRotating: at most n attempts; observations missing from the list
